@@ -293,7 +293,7 @@ def snapshot_dbpath(sim: core.Sim, D: str, names_hint: list[str] | None = None, 
         # be the writer's; a name is only connected to when a file for it exists (connect would otherwise create it)
         names = sorted({f.upper() for f in on_disk} if not names_hint else {n for n in names_hint if n.lower() in {f.lower() for f in on_disk}})
         files = names
-        fs = snowflake.connector.connect.side_effect.__self__  # the FakeSnow instance behind the patch
+        fs = core.find_instance()  # the FakeSnow instance behind the patch
         conns = {}
         errors = {}
         for i, db in enumerate(names):
